@@ -150,17 +150,19 @@ fn check_truncate(ctx: &Ctx, c: &Case) -> PResult {
     }
     let (hh, hl) = gadget::honest_split(&x, n);
     let honest_segs = gadget::truncate_segs(n, hh, hl, &BtsForge::default());
+    let honest_ranges = gadget::truncate_ranges(n, hh, hl, &BtsForge::default());
     let (ws, we) = g.op_wits(1);
-    let Some(mask) = gadget::fit(&honest_segs, &g.wit[ws..we]) else {
+    let Some(fits) = gadget::fit_ranges(&honest_segs, &honest_ranges, &g.wit[ws..we]) else {
         ctx.label("role model mismatch: adversarial tier skipped");
         return Ok(());
     };
-    let dropped = gadget::dropped_segments(&honest_segs, &mask);
-    if !dropped.is_empty() {
-        ctx.label("role model fitted with dropped segments");
+    if fits.iter().any(|f| *f != gadget::SegFit::Keep) {
+        ctx.label("role model fitted with dropped / re-widthed segments");
     }
-    let honest_vec = gadget::flatten(&honest_segs, &mask);
-    let tv = |n: usize, h: U256, l: U256, f: &BtsForge| gadget::flatten(&gadget::truncate_segs(n, h, l, f), &mask);
+    let honest_vec = gadget::flatten_fit(&honest_segs, &honest_ranges, &fits);
+    let tv = |n: usize, h: U256, l: U256, f: &BtsForge| {
+        gadget::flatten_fit(&gadget::truncate_segs(n, h, l, f), &gadget::truncate_ranges(n, h, l, f), &fits)
+    };
     let mut cands: Vec<(String, Vec<F>)> = Vec::new();
     let forges = [
         ("", BtsForge::default()),
@@ -195,6 +197,9 @@ fn check_truncate(ctx: &Ctx, c: &Case) -> PResult {
             continue;
         }
         let a = g.splice(&g.wit, 1, 0, &vec);
+        if gadget::maybe_cross(&g, &a, c.seed, name.len(), 60, "truncate adversarial assignment")? {
+            ctx.label("adversarial assignment cross-checked with the real prover");
+        }
         ctx.add_evals(1);
         ctx.label(&format!("adversary: {}", name.split(' ').take(3).collect::<Vec<_>>().join(" ")));
         if g.eval(&a).is_empty() && a[start] != want {
